@@ -251,27 +251,46 @@ Definition all_pos : list pos :=
   [PId; PType; PDigestAlg; PHead; PContentDir; PManifestDigest; PContentPath; PVersionKey;
    PCreated; PMessage; PUserName; PUserAddress; PStateDigest; PLogicalPath].
 
-(** src/ocfl/serde.rs (the reader behind every store access, fs.rs:1064-1068)
-    id, type            : String                                   serde.rs:131,137
-    digestAlgorithm     : DigestAlgorithm (derived, visit_str)     serde.rs:143
-    head, version keys  : VersionNum, #[serde(try_from = "&str")]  serde.rs:149,244; types.rs:42-44
-    contentDirectory    : Option<String>                           serde.rs:155
-    manifest            : next_entry::<&str, Vec<ContentPath>>     serde.rs:408 (ContentPath: visit_str, types.rs:998)
-    state               : next_entry::<&str, Vec<&str>>            serde.rs:449
-    created             : DateTime<Local> (chrono, visit_str)      serde.rs:333
-    message             : Option<String>                           serde.rs:351
-    user name, address  : derived Deserialize, Option<String>      inventory.rs:85-90 *)
+(** ** The CURRENT main reader, src/ocfl/serde.rs after fix bb69bb9 (the reader behind
+    every store access)
+    id, type            : String                                   serde.rs:132,138
+    digestAlgorithm     : DigestAlgorithm (derived, visit_str)     serde.rs:144
+    head, version keys  : VersionNum, #[serde(try_from = "&str")]  serde.rs:150,244-245; types.rs:43  (STILL borrowed-only)
+    contentDirectory    : Option<String>                           serde.rs:156
+    manifest            : next_entry::<Cow<str>, Vec<ContentPath>> serde.rs:412 (ContentPath: visit_str)
+    state               : next_entry::<Cow<str>, Vec<Cow<str>>>    serde.rs:454; insert_path serde.rs:497-513
+    created             : DateTime<Local> (chrono, visit_str)      serde.rs:334
+    message             : Option<String>                           serde.rs:352
+    user name, address  : derived Deserialize, Option<String>      inventory.rs:85-90
+    [Cow<str>] without #[serde(borrow)] deserializes through [String] (serde's blanket
+    impl for Cow<'a, T>: T::Owned::deserialize), i.e. visit_str/visit_string: every
+    token the conforming decoder accepts is accepted.
+    The only positions left behind a borrowed-only type are [head] and the keys of
+    [versions]: a token with a backslash there is refused ("expected a borrowed
+    string").  rocfl never writes such a token (a version name is 'v' [0-9]+, no
+    byte of it is escaped by serde_json); only an inventory written by OTHER software
+    can spell `"head": "v\u0031"`. *)
+Definition main_pos_borrowed (p : pos) : bool :=
+  match p with
+  | PHead | PVersionKey => true
+  | _ => false
+  end.
+
+(** HISTORICAL main reader, before fix bb69bb9 (manifest / state digests and logical
+    paths were &str / Vec<&str>).  NOT the current code; kept under its old name because
+    the `..._before_fix` notes of Props/C10.v refer to it. *)
 Definition pos_borrowed (p : pos) : bool :=
   match p with
   | PHead | PVersionKey | PManifestDigest | PStateDigest | PLogicalPath => true
   | _ => false
   end.
 
-(** src/ocfl/validate/serde.rs (rocfl validate):
-    id 171, digestAlgorithm 217, head 262, contentDirectory 288, created 724,
-    address 1191 : next_value::<&str>;  manifest / state values : Vec<&str> (901, 1012),
-    their keys and the version keys : next_key to &str (554, 897, 1010);
-    type 200, message 803, name 1169 : String *)
+(** HISTORICAL validator reader, src/ocfl/validate/serde.rs before fix 2f36fc5:
+    id, digestAlgorithm, head, contentDirectory, created, address : next_value::<&str>;
+    manifest / state values : Vec<&str>, their keys and the version keys : next_key to &str;
+    type, message, name : String.  NOT the current code; kept under its old name because
+    C07's and C10's historical notes refer to it.  The current validator reads EVERY
+    position through an owned string, see [val_read_pos] below. *)
 Definition val_pos_borrowed (p : pos) : bool :=
   match p with
   | PType | PMessage | PUserName => false
@@ -337,21 +356,33 @@ Definition digest_algorithms : list bytes :=
     not constrain the string. *)
 Definition post_visit (p : pos) (s : bytes) : option bytes :=
   match p with
-  | PLogicalPath => match lpath_try_from s with Ok t => Some t | _ => None end   (* insert_path, serde.rs:489-503 *)
+  | PLogicalPath => match lpath_try_from s with Ok t => Some t | _ => None end   (* insert_path, serde.rs:497-513 *)
   | PContentPath => cpath_read s
   | PHead | PVersionKey => if is_ok (vparse s) then Some s else None
   | PDigestAlg => if existsb (bytes_eqb s) digest_algorithms then Some s else None
   | _ => Some s
   end.
 
-(** the string rocfl holds after parsing the token at position [p] *)
+(** the string rocfl holds after parsing the token at position [p]: CURRENT main reader *)
+Definition main_read_pos (p : pos) (t : bytes) : option bytes :=
+  match read_with (main_pos_borrowed p) t with
+  | Some s => post_visit p s
+  | None => None
+  end.
+
+(** CURRENT validator reader, string layer only (src/ocfl/validate/serde.rs after fix
+    2f36fc5): id 184, digestAlgorithm 235, head 280, contentDirectory 306, created 743,
+    address 1216 : next_value::<Cow<str>>; version keys 572 : next_key::<Cow<str>>;
+    manifest / state keys 916, 1030 : Cow<str>, their values 921, 1032 : Vec<Cow<str>>;
+    type 218, message 824, name 1196 : String.  Every position is the conforming decoder. *)
+Definition val_read_pos (p : pos) (t : bytes) : option bytes := decode_string t.
+
+(** HISTORICAL readers (before bb69bb9 / 2f36fc5), NOT the current code *)
 Definition rocfl_read_pos (p : pos) (t : bytes) : option bytes :=
   match read_with (pos_borrowed p) t with
   | Some s => post_visit p s
   | None => None
   end.
-
-(** the validator's reader, string layer only *)
 Definition validator_read_pos (p : pos) (t : bytes) : option bytes :=
   read_with (val_pos_borrowed p) t.
 
@@ -437,10 +468,18 @@ Definition validate_content_dir (c : bytes) : bool :=
 Definition cdir_reserved (c : bytes) : bool :=
   is_empty c || bytes_eqb c K_INVENTORY_FILE || starts_with K_INVENTORY_SIDECAR_PREFIX c.
 
-(** the content directory names create_object accepts (repo.rs:579-590): both tests
+(** "It is the name of a directory", repo.rs:592-599 (fix 29bc659):
+      content_dir.len() > 255 || content_dir.contains('\0')      ([len] counts bytes)
+    Without this test such a name was accepted, every cp failed (CopyMoveError) and - since
+    a04a002 propagates the failure of fs::metadata on <version dir>/<content dir>,
+    fs.rs:852-855 - every commit failed with Io. *)
+Definition cdir_not_a_file_name (c : bytes) : bool :=
+  (255 <? blen c) || existsb (fun x => code x =? 0) c.
+
+(** the content directory names create_object accepts (repo.rs:579-599): the three tests
     answer InvalidValue before anything is locked or written *)
 Definition create_object_cdir (c : bytes) : bool :=
-  validate_content_dir c && negb (cdir_reserved c).
+  validate_content_dir c && negb (cdir_reserved c) && negb (cdir_not_a_file_name c).
 
 (** historical: acceptance before d88c1da was validate_content_dir alone; only used
     by the `..._before_fix` notes of Props/C10.v *)
@@ -478,9 +517,9 @@ Definition cdir_collides (cdir alg : bytes) : bool :=
 Definition fs_name_ok (n : bytes) : bool :=
   negb (existsb (fun c => code c =? 0) n) && (blen n <=? 255).
 
-(** * What later commands see: writer followed by rocfl's reader *)
-Definition write_read (p : pos) (s : bytes) : option bytes := rocfl_read_pos p (serde_escape s).
-Definition write_read_validator (p : pos) (s : bytes) : option bytes := validator_read_pos p (serde_escape s).
+(** * What later commands see: writer followed by rocfl's CURRENT readers *)
+Definition write_read (p : pos) (s : bytes) : option bytes := main_read_pos p (serde_escape s).
+Definition write_read_validator (p : pos) (s : bytes) : option bytes := val_read_pos p (serde_escape s).
 
 Definition reads_back (p : pos) (s : bytes) : bool :=
   match write_read p s with Some r => bytes_eqb r s | None => false end.
